@@ -23,14 +23,13 @@
 (*   NoEventLost           every event sent is eventually dequeued by a     *)
 (*                         tick (as a bounded safety property: events in    *)
 (*                         the channel + queue + processed = sent)          *)
-(* and one probe (printed, not a verdict of C07):                           *)
 (*   TickBudget            executed ticks <= elapsed ms + 1 per blocked     *)
-(*                         wake-up.  It is NOT an invariant of the code:    *)
-(*                         with ms_elapsed = 0 last_tick is kept AND the    *)
-(*                         elapsed time is carried in time_remainder, so    *)
-(*                         the same interval is counted twice by the next   *)
-(*                         call (events arriving faster than 1 per ms make  *)
-(*                         kanata's clock run fast).                        *)
+(*                         wake-up: kanata's clock never runs fast.  Holds  *)
+(*                         since fix a46d9fa; before it, with ms_elapsed =  *)
+(*                         0 last_tick was kept AND the elapsed time was    *)
+(*                         carried in time_remainder, so the same interval  *)
+(*                         was counted twice by the next call (seeded       *)
+(*                         design error "rem_double_count").                *)
 (***************************************************************************)
 EXTENDS Naturals, Sequences, TLC
 
@@ -39,7 +38,7 @@ CONSTANTS MaxTime,     \* horizon in quarters
           W,           \* ticks of follow-up work per event
           IdleD,       \* on-idle duration (ticks); 0 = no on-idle action configured
           Bug          \* "none" | "no_rewind" (last_tick not set back on a blocked wake-up) | "block_when_counting"
-                       \* | "rem_fix" (not a bug: the proposed repair of the remainder carry)
+                       \* | "rem_double_count" (the remainder carry before fix a46d9fa)
 Q == 4
 
 VARIABLES pc,        \* "decide" | "recv" | "poll" | "sleep"
@@ -82,9 +81,9 @@ TimeTicks(k, lt) ==
   LET el == (now - lt) + rem
       ms == el \div Q
       k2 == TickN(k, ms)
-      \* Bug = "rem_fix": the proposed repair (proposed_fixes/c07_time_remainder_double_count.diff) - with ms = 0 the
-      \* remainder is left alone because last_tick is kept and the interval will be measured again
-  IN [k |-> k2, ms |-> ms, rem |-> IF ms = 0 /\ Bug = "rem_fix" THEN rem ELSE el % Q,
+      \* src: mod.rs handle_time_ticks (fix a46d9fa): with ms = 0 the remainder is left alone, because last_tick is kept
+      \* and the interval will be measured again; Bug = "rem_double_count" = before the fix
+  IN [k |-> k2, ms |-> ms, rem |-> IF ms = 0 /\ Bug # "rem_double_count" THEN rem ELSE el % Q,
       lastTick |-> IF ms = 0 THEN lt ELSE now]
 
 Apply(r, recvd) ==
@@ -149,7 +148,6 @@ RecvThenTick == (pc = "decide" /\ sinceRecv >= 0) => sinceRecv >= 1
 NoEventLost == Len(chan) + kq + done = sent
 \* the on-idle action is never slept on: once armed, the loop is not in recv() until it fired
 OnIdleNotPostponed == (counting /\ ~fired) => pc # "recv"
-\* probe: executed ticks vs elapsed wall-clock milliseconds
+\* executed ticks vs elapsed wall-clock milliseconds (one extra tick per blocked wake-up by design)
 TickBudget == ticks * Q <= (now - Q) + blockedWakes * Q
-TickBudgetProbe == TickBudget \/ PrintT(<<"LOOPNOTE", "ticks", ticks, "elapsed_quarters", now - Q, "blocked_wakes", blockedWakes>>)
 =============================================================================
